@@ -151,23 +151,23 @@ theorem enc_word {v : PyVal} {p : Pre} (hg : inG0 v = true) (h : pre v = .ok p) 
       conv => lhs; rw [hcons]
       simp [fixedWord, List.append_assoc]
   | set i f xs =>
-    obtain ⟨ps, s, _, _, rfl⟩ := pre_set_inv h
+    obtain ⟨ps, _, rfl⟩ := pre_set_inv h
     refine ⟨_, _, rfl, ?_⟩
     have hcons := head_cons_of_head? hset
     cases f with
     | false =>
       unfold WordShape valWord
       simp only [kindOf]
-      refine ⟨fixedWord_no_colon (by omega), HashLits.setOpen.tail ++ evalPureList H (s.map (·.2) ++ [lit HashLits.setClose]), ?_⟩
-      rw [List.cons_append, evalPureList_lit]
+      refine ⟨fixedWord_no_colon (by omega), HashLits.setOpen.tail ++ evalPureList H [.sorted ps, lit HashLits.setClose], ?_⟩
+      rw [evalPureList_lit]
       simp only [setName]
       conv => lhs; rw [hcons]
       simp [fixedWord, List.append_assoc]
     | true =>
       unfold WordShape valWord
       simp only [kindOf]
-      refine ⟨fixedWord_no_colon (by omega), HashLits.setOpen.tail ++ evalPureList H (s.map (·.2) ++ [lit HashLits.setClose]), ?_⟩
-      rw [List.cons_append, evalPureList_lit]
+      refine ⟨fixedWord_no_colon (by omega), HashLits.setOpen.tail ++ evalPureList H [.sorted ps, lit HashLits.setClose], ?_⟩
+      rw [evalPureList_lit]
       simp only [setName]
       conv => lhs; rw [hcons]
       simp [fixedWord, List.append_assoc]
